@@ -337,6 +337,46 @@ def h_prune(sym, names=tuple(PRUNE_NAMES)):
     return True
 
 
+# ----------------------------------------------------------------------------- partial clear, re-current, create
+def h_partial_clear(sym, kind, ncur=3, ncount=2):
+    """House A current with arbitrary registry content; ONE class registry (Log / Store / Tasker) is cleared on its own
+    (Registrar.Clear rebinds only that class); the house is made current again (House.assignRegistries directly, or
+    implicitly through Framer.clone); then an instance of `kind` is created (explicit, possibly duplicate, or automatic
+    name).  Post (judge): the instance lands in the HOUSE's registry, duplicates of live names are rejected, automatic
+    names are new, nothing else moves."""
+    cls, owner, preface, hkey = KINDS[kind]
+    K = "C47/%s/partial-clear" % kind
+    reset_classes(sym)
+    store = bare_store()
+    ha = housing.House(name="A", store=store)
+    U = universe(preface)[:ncur]
+    ha.names[hkey] = subset(sym, "a", cls, U, odict)
+    ha.counters[hkey] = sym.choice("acounter", ncount)
+    ha.assignRegistries()
+    moot = framing.Framer(name="moot", store=store)      # a live framer of the house (for the clone path)
+    cleared = (logging.Log, storing.Store, tasking.Tasker)[sym.choice("cleared", 3)]
+    sym.cover("cleared-" + cleared.__name__)
+    got = run(lambda: cleared.Clear())
+    chk(sym, got[0] == "ok", K + "/clear-raises", lambda: got[1])
+    if sym.flag("via_clone"):
+        sym.cover("current-again-via-clone")
+        got = run(lambda: moot.clone(name="cl"))
+        chk(sym, got[0] == "ok", K + "/clone-rejected", lambda: got[1])
+    else:
+        sym.cover("current-again-direct")
+        ha.assignRegistries()
+    if cls is not owner:
+        cls.Counter = sym.choice("own_counter", ncount)
+    reg = ha.names[hkey]
+    pre = snap(reg)
+    others = [("house A " + k, ha.names[k], snap(ha.names[k])) for k in ha.names if k != hkey]
+    names = U + ["z"]
+    name = None if sym.flag("auto") else names[sym.int("name", 0, len(names) - 1)]
+    got = create(cls, store, name)
+    judge(sym, K, cls, owner, got, name, reg, pre, others)
+    return True
+
+
 def _prune_cross_namespace_works():
     """does pruning a framer while another house's namespace is current deregister it from its own house?"""
     try:
@@ -380,6 +420,13 @@ def obligations(tier):
             ob(kind, "house-switch", base + ["created-before-switch", "name-exists-in-other-house-only"], **switch)
         if kind == "Frame":
             ob(kind, "framer-switch", base + ["created-before-switch", "name-exists-in-other-framer-only"], **switch)
+    pc = ["cleared-Log", "cleared-Store", "cleared-Tasker", "current-again-via-clone", "current-again-direct"]
+    for kind in ("Log", "Tasker"):
+        out.append(Ob("%s/partial-clear" % kind, h_partial_clear, dict(kind=kind), budget=600 if quick else 3000,
+                      covers=base + pc, max_fail_keys=40,
+                      bounds=dict(house_registry_universe=universe(KINDS[kind][2])[:3], cleared_class="Log | Store | Tasker (one)",
+                                  made_current_again="assignRegistries | Framer.clone", counters=[0, 1],
+                                  steps="clear one class registry; make house current; create one instance")))
     # deregistration: Framer.prune is the only removal path besides Clear (grep: del/pop on a Names registry)
     pcov = ["current-is-owner", "current-is-other", "same-name-live-in-other-house", "recursive-prune"]
     if not _prune_cross_namespace_works():
